@@ -152,7 +152,11 @@ class Typedef(_Serializable):
     @property
     def lowermost_typedef(self):
         lowermost = self.definition
+        seen = set()
         while isinstance(lowermost, Typedef):
+            if id(lowermost) in seen:
+                raise ModelError("definition of '%s' depends on itself (cyclic dependency)" % self.name)
+            seen.add(id(lowermost))
             lowermost = lowermost.definition
         return lowermost
 
@@ -462,8 +466,11 @@ def _collect_constants(nodes_, constants=None):
         elif isinstance(node_, Typedef):
 
             def get_last_in_chain(key):
-                value = constants.get(key, key)
-                return value if value == key else get_last_in_chain(value)
+                seen = set()
+                while key not in seen and constants.get(key, key) != key:
+                    seen.add(key)
+                    key = constants[key]
+                return key
 
             constants[node_.name] = get_last_in_chain(node_.type_name)
 
